@@ -69,6 +69,10 @@ def classify(prop, line, core_ok):
                 % (TYPINGS[prop].get(t, t), f["ty"].split(":", 1)[1].replace("/", " | ") if ":" in f["ty"] else f["ty"])), "other-element-type"
     if f["calls"].startswith("extra"):
         call, _, t = f["calls"].split(":", 1)[1].rpartition("@")
+        if call.startswith("after-stop:"):
+            return ("ForEach does not stop with the first error returned: after the visitor had returned its error a user callback was still "
+                    "called: %s (callback <op>.<function>#<node number in preorder>[environment](arguments), run at element type %s)"
+                    % (call[len("after-stop:"):], TYPINGS[prop].get(t, t))), "callback-after-stop"
         return ("a predicate/map/join function was called on an element that the list functions never pass to it: %s "
                 "(callback <op>.<function>#<node number in preorder>[environment](arguments), first seen in the run at element type %s)"
                 % (call, TYPINGS[prop].get(t, t))), "callback-arguments"
